@@ -30,6 +30,21 @@ CHECKS = {
   text="For every tree: ast.Walk must produce exactly the Enter/Exit sequence computed by reflection over the ast.Node and []ast.Node fields in declaration order (each node once, parents around children, children in source order); for every position, a visitor replacing that node on Exit and on Enter must leave the replacement in that slot and (on Enter) have its children walked. End to end, every one-hole context C[41] of a hole grammar (under slices, indexes, closures, arguments, map keys/values, branches, ranges) compiled with a Patch visitor rewriting 41 to 42 must evaluate like C[42] in three modes.",
   note="Trusted: reflection over the node struct fields as the definition of 'children in source order'.",
   ref="DESIGN.md section 4 C10"),
+ "C11": dict(
+  technique="exhaustive enumeration of syntax trees (to a node budget) and of token sequences (to a length bound) on the real parser against an independent precedence-climbing reference parser with its own binding-power table",
+  text="(i) Every tree of a syntactic grammar (all 23 binary operators, 3 unary, conditional, 7 postfix forms, calls, builtin with closure, arrays, map; and a deeper pass with one operator per precedence class) is printed with a locally minimal parenthesisation decided by the reference parser, fully parenthesised, with redundant parentheses and in tab/newline/mixed layouts: the real parser must return exactly that tree. (ii) Every token sequence of <= 4/5 tokens over a 26-token alphabet: accepted iff the reference grammar accepts, with the same tree.",
+  note="Trusted: the reference grammar mc/refparse (Appendix B); the real lexer supplies tokens (checked by C12).",
+  ref="DESIGN.md section 4 C11, Appendix B"),
+ "C12": dict(
+  technique="exhaustive round-trip enumeration: all strings over a small rune alphabet x quote styles x all spelling combinations; integer and float boundary grids x spellings; all short token sequences x all whitespace choices with independently computed positions, on the real lexer/parser",
+  text="Strings of <= 2/3 runes over 14 runes (NUL, controls, both quotes, backslash, ASCII, 2/3/4-byte runes, U+FFFD) in both quote styles and every combination of supported spellings must lex to exactly that string; ~4600 integers (0..4096, 2^k+-1, 10^k+-1, every hex digit incl. 'e' in every position) in decimal, '_'-separated and hexadecimal spellings, and ~1300 finite floats in e/E/f/g, fixed-precision and leading-dot forms must parse to exactly that number; every sequence of <= 3 (4) tokens with every whitespace choice per gap, including multi-byte runes and 'not' before words starting with 'in', must report line/column of each token's first character.",
+  note="Trusted: the harness's own position arithmetic and Go's strconv for the expected numeric values; integers/floats on grids, not all values.",
+  ref="DESIGN.md section 4 C12"),
+ "C13": dict(
+  technique="exhaustive single-fault injection with independently known positions over all expressions of three slices x four layouts on the real Compile/Run: run-time failures located by the reference evaluator, injected compile-time faults at every position, every single stray/deleted token",
+  text="For every expression (to a node budget) in single-line, multi-line and non-ASCII-prefixed layouts: every run that the reference evaluator fails at a located node must be reported at that node's location token (operator, '[', member name, function name), optimized and not, typed and untyped (including fetches of missing members); every injected single fault (unknown name/function/field, one mismatching operand of a binary/unary operator) at every position must be reported at that position; every stray token (4 kinds) at every token boundary and every deleted token must be reported where the reference grammar stops; every reported location must lie inside the source and the snippet must be the named line.",
+  note="Trusted: the location convention of Appendix D; positions come from the harness printer (independent of the lexer) except for syntax faults.",
+  ref="DESIGN.md section 4 C13, Appendix D"),
  "C14": dict(
   technique="fully exhaustive enumeration of 12x12 kind pairs x 12 operators (+ unary minus) x boundary-value grids on the real Compile/Run against an independent bit-level arithmetic model",
   text="All ordered pairs of the 12 numeric kinds, all arithmetic/comparison operators, unary minus and **, on the full product of a per-kind boundary grid (0, +-1, extrema, truncating and sign-changing bit patterns, floats not representable in float32), typed and untyped: result kind and bits must equal the promotion model (convert lower-ranked operand, wrap to result width, truncating division, division by zero fails) and the kind must be the one checker.Check predicts. One transposed conversion among ~1500 generated cases is caught; TestExpr samples a handful.",
